@@ -48,6 +48,7 @@ RULE = (
     'in one call and one-by-one in reversed order, then released (one-by-one / at once). Non-trivial: a release or '
     're-fix after the first evaluation and an evaluation with >= 1 free and >= 1 fixed parameter. Distinct = '
     '(kind, structure of the object, operation sequence without values).')
+RULE += (' ' + 'Added: parameter names and counts are observed between the two halves of the set_n_ids round trip.')
 ASSUMPTIONS = [
     'oracle: a separately constructed never-fixed twin of the same spec evaluated at the full vector (substitution by '
     'original position, not by chi\'s mask); it is also the oracle for the names after a rename (the same rename '
